@@ -13,7 +13,7 @@ Ok or Err (the property's fault model).  (1) T-nopanic: no reachable panic site 
 blob's DEK-length field is bounded by the blob length.  (2) Error discipline: no Result produced in the two functions is dropped; every one
 is `?`-propagated, matched, or tested.  (3) Secrecy (taint on provenance terms): what is written into the output blob is the wrapped DEK
 returned by kms.encrypt_dek, the nonce, and the seed buffer only after seal_in_place_append_tag succeeded on it; the plaintext DEK flows only into
-UnboundKey::new and kms.encrypt_dek.  (4) Encrypt/decrypt agreement: same AEAD algorithm constant and associated data on both sides; fields are
+UnboundKey::new and kms.encrypt_dek; the AEAD seal is applied once to a buffer freshly copied from the seed (a seal in a retry loop must re-create the buffer).  (4) Encrypt/decrypt agreement: same AEAD algorithm constant and associated data on both sides; fields are
 written and read in the same order (u16 LE wrapped-DEK length, u16 LE nonce length, wrapped DEK, nonce, ciphertext) with LittleEndian on both sides.
 (5) Acceptance covers production: the minimum blob length decrypt_seed accepts is at most the smallest blob encrypt_seed can emit over the
 quantified ranges (wrapped DEK 16 bytes, plaintext 32 bytes: 4 + 16 + nonce + 32 + tag).
@@ -186,6 +186,30 @@ def run(ctx):
         ctx.check("secrecy", "blob-write/%s" % (seq[-1][0] if seq and verdict.startswith("ok") else "other") + "#%d" % len([1 for w in writes if w[0] <= order[b]]),
                   verdict.startswith("ok"), verdict, verdict, enc.loc(b))
     ctx.floor("secrecy", len(writes), 5, "writes into the output blob")
+    # the AEAD seal is applied once to a fresh copy of the seed: a seal inside a loop (a retry) needs the buffer re-created from the seed in the same
+    # iteration, otherwise the second pass encrypts the first pass's ciphertext and the blob decrypts to something that is not the seed
+    nseal = 0
+    for bb, t in enc.calls():
+        if not callee_name(t["fn"].get("path", "")).startswith("seal_in_place"):
+            continue
+        nseal += 1
+        a = eev.call_args(bb)
+        bufs = [x for x in a if isinstance(x, tuple) and x and x[0] == "obj" and (values.contains(W.obj_init(x) or (), lambda s_: s_ == SEED) or W.obj_init(x) == SEED)]
+        okfresh = bool(bufs)
+        for x in bufs:
+            inits = eev.obj_init(x[2])
+            init_loops = {l["header"] for (ib, it) in inits for l in enc.in_loop(ib)}
+            seal_loops = {l["header"] for l in enc.in_loop(bb)}
+            if not seal_loops <= init_loops:
+                okfresh = False
+            # and nothing else seals or writes this buffer before
+            others = [b2 for (b2, c2, ai2, ap2) in eev.events_on(x[2]) if b2 != bb and callee_name(c2).startswith("seal_in_place")]
+            if others:
+                okfresh = False
+        ctx.check("secrecy", "seal-once-on-a-fresh-copy#%d" % nseal, okfresh, "the seal is applied once to a buffer freshly copied from the seed",
+                  "the seed buffer can be sealed more than once (the seal sits in a loop that does not re-create the buffer from the seed): a later pass encrypts ciphertext, and decrypt_seed then returns bytes that are not the seed",
+                  enc.loc(bb))
+    ctx.floor("secrecy", nseal, 1, "AEAD seal calls in encrypt_seed")
     # plaintext DEK sinks
     if dek is not None:
         sinks = []
